@@ -30,7 +30,14 @@ def model_text(t, p, d, o, prefixes=""):
             m_eq.append("z = 2 * der(x) + 1;")
         elif d == 3:
             m_ieq.append("der(x) = 0;")
-        if d != 2:
+        elif d == 5:
+            # the subject follows a closed sub-expression inside der(): der(2 * w0 + x)
+            m_eq.append("z = der(2 * w0 + x) + 1;")
+            m_eq.append("w0 = 3 * time;")
+        elif d == 6:
+            m_eq.append("z = der((w0 - 1) * 2 + (x + w0)) + 1;")
+            m_eq.append("w0 = 3 * time;")
+        if d not in (2, 5, 6):
             m_eq.append("z = 3;")
     else:
         ref = "w"
@@ -48,7 +55,7 @@ def model_text(t, p, d, o, prefixes=""):
     two = [subj, other] if o == 0 else [other, subj]
     if p == 0:
         c_decl = ["Real q;"]
-        m_decl = two + ["C c;"]
+        m_decl = two + ["C c;"] + (["Real w0;"] if d in (5, 6) else [])
     else:
         c_decl = two
         m_decl = ["Real z;", "C c;"]
